@@ -162,6 +162,7 @@ func (e Float32Engine) FMAScalar(a Tensor, x interface{}, y Tensor) (retVal Tens
 	if useIter {
 		err = execution.MulIterIncrVSF32(dataTensor.Float32s(), scalar, dataReuse.Float32s(), ait, iit)
 		retVal = reuse
+		return // the iterator kernel has done the work: falling through would add a·x a second time, over raw storage
 	}
 
 	execution.MulIncrVSF32(dataTensor.Float32s(), scalar, dataReuse.Float32s())
@@ -226,6 +227,15 @@ func (e Float32Engine) Inner(a, b Tensor) (retVal float32, err error) {
 	}
 	if BD, ok = b.(*Dense); !ok {
 		return 0, errors.Errorf("b is not a *Dense")
+	}
+
+	if AD.RequiresIterator() || BD.RequiresIterator() {
+		// the dot kernel below walks raw storage: non-contiguous views go through the default engine
+		ret, ierr := e.StdEng.Inner(a, b)
+		if ierr != nil {
+			return 0, ierr
+		}
+		return ret.(float32), nil
 	}
 
 	A = AD.Float32s()
